@@ -41,7 +41,9 @@ def efficiency_bin(G, local=False):
         while np.any(L):
             D += n * L
             n += 1
-            nPATH = np.dot(nPATH, g)
+            # keep only which pairs are joined (walk counts overflow on long
+            # dense networks)
+            nPATH = (np.dot(nPATH, g) != 0).astype(float)
             L = (nPATH != 0) * (D == 0)
         D[np.logical_not(D)] = np.inf
         D = 1 / D
